@@ -240,23 +240,30 @@ def cli_cases(ctx, rng, exports, by, tmp):
             if not cand:
                 continue
             S = min(cand, key=len) if det else max(cand, key=len)
-            for flags in ([], ["--ignore-rank"]):
+            for flags in ([], ["--ignore-rank"], ["@relations-file"]):
                 want = "accept" if (det or "--ignore-rank" in flags) else "raise"
                 work = Path(tempfile.mkdtemp(dir=tmp))
+                sysarg = s
+                if flags == ["@relations-file"]:
+                    # a path to a relations file in place of the system name, through the command line
+                    flags = []
+                    rel = work / "relations_of_my_crystal.txt"
+                    shutil.copy(fillspec.CONSTRAINTS / s, rel)
+                    sysarg = str(rel)
                 cols = [SYMS[k - 1] for k in sorted(S)]
                 lines = ["static table", f"100.0 3 50.0", "V " + " ".join(cols)]
                 for i, t in enumerate(tensors):
                     lines.append(f"{100.0 - 5*i:.4f} " + " ".join(f"{float(t[k-1]):.6f}" for k in sorted(S)))
                 f = work / "elast.dat"
                 f.write_text("\n".join(lines) + "\n")
-                case = {"system": s, "cli": True, "flags": flags, "det": det, "supplied": cols}
+                case = {"system": s, "cli": True, "flags": flags, "det": det, "supplied": cols, "system_argument": "name" if sysarg == s else "path"}
                 ctx.count(case)
                 n += 1
                 with cwd(work):
-                    r = CliRunner().invoke(fill_main, ["-s", s, *flags, str(f)])
+                    r = CliRunner().invoke(fill_main, ["-s", sysarg, *flags, str(f)])
                 got = "accept" if r.exit_code == 0 and r.exception is None else "raise"
                 if got != want:
-                    ctx.violation(f"cij fill -s {s} {' '.join(flags)}: expected {want}, got {got} ({r.exception!r})", case,
+                    ctx.violation(f"cij fill -s {'<relations file>' if sysarg != s else s} {' '.join(flags)}: expected {want}, got {got} ({r.exception!r})", case,
                                   {"system": s, "env": "cli", "det": det, "gross": False, "clause": "decision", "want": want,
                                    "exc": type(r.exception).__name__ if r.exception else None})
     ctx.cov["cli_runs"] = n
